@@ -1,6 +1,9 @@
-import Driver.JsonIO
+import Driver.C17
 open Lean
 
-/-- model-side handler for cases whose "kind" starts with "c11." (stub until the property's slice lands) -/
+/-- model-side handler for cases whose "kind" starts with "c11.": the sequential run of one client's request sequence
+through a System (the oracle of C11) is the cache model of C17 instantiated with the Location model -/
 def handleC11 (kind : String) (c : Json) : Json :=
-  Json.mkObj [("err", Json.str ("unknown kind " ++ kind))]
+  match kind with
+  | "c11.solo" => handleC17Sys c
+  | _ => Json.mkObj [("err", Json.str ("unknown kind " ++ kind))]
